@@ -106,6 +106,24 @@ def pinned_cases(thorough):
     side = [[], [1], [1], [1]]
     for pat in ("T", "D"):
         case("reentry-long-segment-" + pat, side, [1], [1, 2, 3, 4], [ch(2), ch(220), ch(3), ch(1)], pat, "max")
+    # one responder segment of 250-320 commands handed over in one session: the response limit cuts
+    # it two or three times (the mid-segment resume point has to advance from the previous resume point)
+    single = {"seed": 9, "frag": 0, "commit_every": 0, "flush_den": 0}
+    for pat, k, bufs in (("R", 250, "max"), ("R", 320, "retry"), ("T", 270, "max"), ("D", 300, "ladder")):
+        case("one-segment-%d-%s" % (k, pat), chain_dag(2), [1], [1, 2], [ch(1), ch(k)], pat, bufs, layB=single)
+    # the same below a merge just under the responder's head (segment entered from a merge segment)
+    case("one-segment-260-under-merge-R", [[], [1], [2], [2], [3, 4]], [1], [1, 2, 3, 4, 5],
+         [ch(1), ch(260), ch(2), ch(1), ch(1)], "R", "max", layB=single)
+    # requester head set whose lowest-id head (listed first in head set and sample) is a short old
+    # branch far (> 100 max cuts) below the overlap with the responder; responder in one-command
+    # segments, so the start of its traversal depends on the *highest* have location
+    low = {"kind": "chain", "k": 1, "idlow": True}
+    oldbranch = [[], [1], [1], [2]]       # 2 long chain, 3 short old branch off init, 4 responder's extension
+    for pat in ("R", "T"):
+        case("old-low-branch-head-" + pat, oldbranch, [1, 2, 3], [1, 2, 3, 4], [ch(1), ch(300), low, ch(150)], pat, "max",
+             layA=single, layB=frag)
+    case("old-low-branch-fan-T", oldbranch, [1, 2, 3], [1, 2, 3, 4],
+         [ch(1), ch(230), {"kind": "fan", "k": 4, "idlow": True}, ch(120)], "T", "max", layA=frag, layB=frag)
     # > 100 commands per response, > 1 response per session, ping-pong of two diverged chains
     case("diverged-chains-130-170", [[], [1], [1]], [1, 2], [1, 3], [ch(1), ch(130), ch(170)], "R", "max", pingpong=True)
     case("diverged-chains-130-170-T", [[], [1], [1]], [1, 2], [1, 3], [ch(1), ch(130), ch(170)], "T", "retry", pingpong=True)
